@@ -5,6 +5,7 @@ import LentilVerif.Gen.Helper20
 import LentilVerif.Gen.Hex
 import LentilVerif.Gen.Mesh
 import LentilVerif.Gen.UtilWindow
+import LentilVerif.Gen.UtilCentroid
 /-! Executable model of lentil's array-geometry helpers (`util.pad/subarray/boundary/rebin/centroid`,
 `helper.mesh/boundary_slice/slice_offset`, `shape.circle/rectangle/hexagon`, `segmented.hex_ring/hex_segments`).
 Index arithmetic comes from the generated kernel (`Gen.padIdx2`, `Gen.padIdx3`, `Gen.subarrayIdx`, `Gen.boundarySlice`,
@@ -160,6 +161,10 @@ def centroidNumK [Add K] [Mul K] [Zero K] [NatCast K] (a : Arr K) : K × K × K 
   (sumRange a.s0.toNat fun i => sumRange a.s1.toNat fun j => ((i : Nat) : K) * a.get i j,
    sumRange a.s0.toNat fun i => sumRange a.s1.toNat fun j => ((j : Nat) : K) * a.get i j,
    a.total)
+
+/-- `util.centroid(img)` itself: the REGENERATED `Gen.centroid` (normalisation by the total, index grids, dot products) on the array model -/
+def centroidRC [Add K] [Mul K] [Div K] [Zero K] [IntCast K] (a : Arr K) : K × K :=
+  Gen.centroid sumRange a.s0.toNat a.s1.toNat fun i j => a.get i j
 
 /-! ## `helper.mesh` and the drawn shapes (`shape.py`) -/
 
